@@ -154,6 +154,16 @@ func (d *Driver) yield(instanceID, site string) {
 		}
 		return
 	}
+	if site == "handleGracePeriodExpired" && instanceID == "" {
+		// The grace-expiry handler is about to take its mutex and read which notification its
+		// timer belongs to: observation for C11, recorded when the goroutine actually proceeds
+		// (after a park, if any; the driver runs nothing else until it blocks again).
+		defer func() {
+			d.mu.Lock()
+			d.h.Expiries = append(d.h.Expiries, ExpiryEvt{T: d.now(), Step: d.step, Ord: d.h.nextOrd()})
+			d.mu.Unlock()
+		}()
+	}
 	if site == "acquire.attempt" {
 		// observation point only: when an acquisition attempt starts (C17)
 		g := goid()
@@ -168,8 +178,22 @@ func (d *Driver) yield(instanceID, site string) {
 		return
 	}
 	var st time.Duration
-	if d.plan.Sched.StallMax > 0 && d.rYield.Bool(0.5) {
+	stallHere := d.plan.Sched.StallMax > 0
+	if stallHere && len(d.plan.Sched.StallSites) > 0 {
+		stallHere = false
+		for _, x := range d.plan.Sched.StallSites {
+			if x == site {
+				stallHere = true
+			}
+		}
+	} else if stallHere {
+		stallHere = d.rYield.Bool(0.5)
+	}
+	if stallHere {
 		st = d.rYield.Dur(0, d.plan.Sched.StallMax)
+		if u := d.plan.Sched.StallUntil; u > 0 && d.now() >= u {
+			st = 0
+		}
 	}
 	g := goid()
 	if g == d.driverGID || holdsLock(g) {
@@ -194,6 +218,7 @@ func (d *Driver) yield(instanceID, site string) {
 		}
 	}
 	d.h.Stalls = append(d.h.Stalls, StallEvt{T: d.now(), Site: site, D: y.d, GID: y.gid, Inst: y.inst})
+	d.nParked++
 	d.inbox = append(d.inbox, &request{kind: "yield", y: y})
 	d.mu.Unlock()
 	d.signal()
